@@ -691,8 +691,33 @@ def s6_handover(chk, db, rec_q, funcs):
                         nm, q, recv, kind = astx.callee(c)
                         if nm == "clear" and refs and bad is None:
                             bad = (c, sorted(refs))
-        ok = bad is None and moved_to_value
+        # [flat.set.modifiers] extract: "*this is emptied": a path that moves the container out leaves the set empty --
+        # clear(), exchange(member, {}) or an assignment of an empty container to the member
+        not_emptied = None
+        if bad is None and moved_to_value:
+            for p in paths(f["body"]):
+                emptied = False
+                for ev in p:
+                    for e in event_exprs(ev):
+                        for c in calls_in(e):
+                            nm = astx.callee(c)[0]
+                            if nm == "clear":
+                                emptied = True
+                            if nm == "exchange" and c["a"] and mentions(c["a"][0], cfields):
+                                emptied = True
+                        for x in astx.walk_expr(e, into_lambdas=False):
+                            if x.get("k") == "bin" and x["op"] == "=" and mentions(x["l"], cfields):
+                                r0 = astx.strip_casts(x["r"])
+                                if r0 is not None and r0.get("k") in ("construct", "initlist") and not [a for a in r0.get("a", []) if a is not None and not (a.get("k") == "initlist" and not a.get("a"))]:
+                                    emptied = True
+                if p and p[-1][0] == "ret" and not emptied and not_emptied is None:
+                    not_emptied = p[-1][1]
+        ok = bad is None and moved_to_value and not_emptied is None
         chk.obligation("S6", construct, ok)
+        if bad is None and moved_to_value and not_emptied is not None:
+            chk.violation("S6", construct, "not-emptied", "%s: extract() returns the moved-out container but leaves the set's own container as the "
+                          "move left it (a moved-from fixed-capacity vector keeps its size): the set is not emptied" % astx.loc(f, not_emptied),
+                          {"where": astx.loc(f)})
         if bad:
             chk.violation("S6", construct, "cleared-through-reference",
                           "%s: `%s` is only a reference to the member container, which is cleared before it is returned" % (
